@@ -3,8 +3,7 @@ contexts, and the Gallina literals that make the Coq model (Model/C01_RecordPipe
 Toy/C01_ToyCipher.v) evaluate the same cases."""
 import vlib
 from vlib import zlit
-from toys import ToyMac
-from c01_toys import ToyStream, ToyCBC, ToyAEAD
+from c01_toys import ToyMac, ToyStream, ToyCBC, ToyAEAD
 
 def blit(bs):
     """bytes -> Gallina list Z; long strings as a hex string literal (parsing long list literals is slow)"""
@@ -98,7 +97,7 @@ def make_state(c, seq=None, iv=None):
     if m in ('null', 'stream', 'cbc', 'etm'):
         st.macContext = ToyMac(c['mac_key'], c['mds'], c['mbs'])
     if m == 'stream':
-        st.encContext = ToyStream(c['enc_key'])
+        st.encContext = ToyStream(c['enc_key'], h=(iv[0] if iv is not None else None))
     elif m in ('cbc', 'etm'):
         st.encContext = ToyCBC(c['enc_key'], c['iv'] if iv is None else iv)
     elif m.startswith('aead') or m == 'tls13':
@@ -227,7 +226,7 @@ def prim_lit(c):
 def st_lit(c, seq=None, iv=None):
     m = c['mode']
     if m == 'stream':
-        cs = 'ts_init %s' % blit(c['enc_key'])
+        cs = ('ts_init %s' % blit(c['enc_key'])) if iv is None else zlist(iv)
     elif m in ('cbc', 'etm'):
         cs = blit(c['iv'] if iv is None else iv)
     else:
@@ -302,7 +301,34 @@ def send_case_lit(c, recs, outs, fseq, fcs):
         ';'.join(exp), zlit(fseq), zlist(fcs))
 
 
-def recv_case_lit(c, wires, outs, fseq, fcs, seq=None, iv=None):
+def recv_case_lit(c, wires, outs, fseq, fcs, seq=None, iv=None, names=None):
     return '(%s, %s, %s, [%s], [%s], %s, %s)' % (
-        cfg_lit(c), prim_lit(c), st_lit(c, seq, iv), ';'.join(wire_lit(w) for w in wires),
+        names[0] if names else cfg_lit(c), names[1] if names else prim_lit(c), st_lit(c, seq, iv),
+        ';'.join(wire_lit(w) for w in wires),
         ';'.join('(%d, %s, %s)' % (code, zlit(ty), blit(pl)) for code, ty, pl in outs), zlit(fseq), zlist(fcs))
+
+
+def impl_send_snap(c, recs):
+    """Like impl_send, and the (seqnum, cipher state) the sender was in before each record."""
+    from tlslite.messages import Message
+    rl, sock, st = make_rl(c, 'send')
+    outs, snaps = [], []
+    for ty, data in recs:
+        snaps.append((st.seqnum, cs_of(st)))
+        sock.out = bytearray()
+        for _ in rl.sendRecord(Message(ty, bytearray(data))):
+            pass
+        outs.append(bytes(sock.out))
+    snaps.append((st.seqnum, cs_of(st)))
+    return outs, snaps
+
+
+def recv_at(c, snap, wires):
+    """Real recvRecord on `wires`, receiver starting in step with sender snapshot `snap`."""
+    seq, cs = snap
+    return impl_recv(c, wires, seq=seq, iv=(cs if cs else None))
+
+
+def recv_case_at(c, snap, wires, outs, fseq, fcs, names=None):
+    seq, cs = snap
+    return recv_case_lit(c, wires, outs, fseq, fcs, seq=seq, iv=(cs if cs else None), names=names)
